@@ -261,6 +261,57 @@ def _syn_group_case(rng):
     return dict(kind="synthetic-group", tpl={"graph": tpl}, sub={"graph": host}, invert=inv, strategy=rng.choice(["all", "comp", "bt"]), mode="E")
 
 
+def _syn_raw_case(rng):
+    """graph level (round 5): a HAND-WRITTEN rule in prepared form (hydrogen changes as counts + h_pairs, no H atoms), handed over as
+    SynRule(tpl, implicit_h=False) to a default-mode reactor, read with a random script.  1-2 groups; per group 1-3 donors with a
+    surplus of 1-2, 0-3 recipients with a deficit of 1-2 (so: exact groups, groups with spare places, and groups with more to give
+    than to take = _explicit_h raises); some groups are chained through an atom that carries two pair ids; host ids scattered
+    over 0..70 (hash-table visiting order)."""
+    els = ["C", "N", "O", "S", "P", "B", "F", "I"]
+    rng.shuffle(els)
+    atoms, k, pid = [], 0, 1
+    for _ in range(rng.randint(1, 2)):
+        nd, nr = rng.randint(1, 3), rng.randint(0, 3)
+        if k + nd + nr > len(els):
+            break
+        chain = nd + nr >= 3 and rng.random() < 0.4
+        give = take = 0
+        for j in range(nd + nr):
+            base, amt = rng.randint(0, 1), rng.randint(1, 2)
+            if j < nd:
+                give += amt
+            else:
+                take += amt
+                if j == nd + nr - 1 and give > take and rng.random() < 0.75:
+                    amt += give - take + rng.randint(0, 1)      # usually the places suffice (sometimes with one to spare)
+            hg, hh = (base + amt, base) if j < nd else (base, base + amt)
+            pairs = [pid] if not chain or j == 0 else ([pid, pid + 1] if j == 1 else [pid + 1])
+            atoms.append((els[k], hg, hh, pairs))
+            k += 1
+        pid += 2 if chain else 1
+    if rng.random() < 0.3 and k < len(els):
+        atoms.append((els[k], 1, 0, None))            # a hydrogen change without pair ids: stays a count
+        k += 1
+    tids = rng.sample(range(1, 40), len(atoms))
+    hids = rng.sample(range(0, 71), len(atoms) + rng.randint(0, 2))
+    tpl = {"nodes": [[t, {"element": el, "charge": 0, "atom_map": t, "hcount": hg, "aromatic": False,
+                          "typesGH": [[el, False, hg, 0, []], [el, False, hh, 0, []]], **({"h_pairs": pr} if pr is not None else {})}]
+                     for t, (el, hg, hh, pr) in zip(tids, atoms)], "edges": []}
+    hnodes = {h: {"element": el, "aromatic": False, "hcount": hg + rng.randint(0, 1), "charge": 0, "neighbors": [], "atom_map": 0}
+              for h, (el, hg, hh, pr) in zip(hids, atoms)}
+    hedges = {}
+    for x in hids[len(atoms):]:
+        hnodes[x] = {"element": "C" if "C" not in [a[0] for a in atoms] else "Si", "aromatic": False, "hcount": rng.randint(0, 3), "charge": 0, "neighbors": [], "atom_map": 0}
+        hedges[(x, rng.choice(hids[:len(atoms)]))] = 1
+    order = list(hnodes)
+    rng.shuffle(order)
+    rng.shuffle(tpl["nodes"])
+    host = {"nodes": [[i, hnodes[i]] for i in order], "edges": [[u, v, {"order": o}] for (u, v), o in hedges.items()]}
+    attrs = ["rule", "mappings", "mapping_count", "its_list", "its", "smarts_list", "smarts", "smiles_list", "its_list", "smarts_list"]
+    return dict(kind="synthetic-raw", tpl={"graph": tpl}, sub={"graph": host}, invert=False, strategy=rng.choice(["all", "comp", "bt"]), mode="E",
+                tpl_form="synrule-raw", script=[rng.choice(attrs) for _ in range(rng.randint(3, 6))])
+
+
 # ------------------------------------------------------------------ API surface, histories, degenerate values (round 3)
 
 API_SEEDS = [
@@ -1103,6 +1154,8 @@ def gen_cases(tier, rng):
         cases.append(_syn_transfer_case(rng))
     for _ in range(60 if tier == "quick" else 600):
         cases.append(_syn_group_case(rng))
+    for _ in range(40 if tier == "quick" else 400):
+        cases.append(_syn_raw_case(rng))
     return prepare_all(cases)
 
 
